@@ -81,7 +81,10 @@ def check(sids):
         shutil.copy(os.path.join(VERIF, "known_findings.json"), vd)
         try:
             rc, out = sh("git -C %s apply %s" % (REPO, os.path.join(d, "patch.diff")), "/")
-            assert rc == 0, out
+            if rc != 0:
+                results[sid] = {"property": meta["property"], "status": "STALE", "fired": {}, "title": meta.get("title", ""), "first_contact": meta.get("first_contact", ""), "strengthened": "patch no longer applies: " + out.strip()[-120:]}
+                print("%-28s STALE (patch does not apply)" % sid)
+                continue
             def one(p):
                 r = subprocess.run([os.path.join(VERIF, "bin/nbverif"), "check", "-p", p],
                                    env=dict(ENV, VERIF_DIR=vd), capture_output=True, text=True)
@@ -99,7 +102,12 @@ def check(sids):
         own = meta["property"]
         st = "caught" if own in fired else ("caught-by-other" if fired else "MISSED")
         results[sid] = {"property": own, "status": st, "fired": fired, "title": meta.get("title", ""), "first_contact": meta.get("first_contact", ""), "strengthened": meta.get("strengthened", "")}
-        print("%-28s %-16s %s" % (sid, st, ", ".join("%s[%s]" % (p, " ".join(v["obligations"])) for p, v in fired.items())))
+        print("%-28s %-16s %s" % (sid, st, ", ".join("%s[%s]" % (p, " ".join(v["obligations"])) for p, v in fired.items())), flush=True)
+        # keep what we have (a long run may be interrupted)
+        rp0 = os.path.join(SEEDED, "results.json")
+        all0 = json.load(open(rp0)) if os.path.exists(rp0) else {}
+        all0.update(results)
+        json.dump(all0, open(rp0, "w"), indent=1, sort_keys=True)
     rc, out = sh("git status --porcelain", REPO)
     assert out.strip() == "", "/repo left dirty"
     # merge into RESULTS
